@@ -438,6 +438,25 @@ func Generate(rng *rand.Rand, prop, tier string, gomaxprocs int) *Desc {
 				ci = pi // the same directive, re-entered from one of its own tasks
 			}
 			ch := gen(ci, depth+1)
+			if (prop == "C03" || prop == "C05" || prop == "C06") && rng.Intn(3) == 0 {
+				// the nested directive loses a worker to runtime.Goexit; the enclosing task passes
+				// on what it returns ("job exited unexpectedly", wrapped)
+				var ids []int
+				if cp := programs[ci].P; cp.Flow != nil {
+					for _, t := range cp.Flow.Tasks {
+						if t.Pred == nil {
+							ids = append(ids, t.ID)
+						}
+					}
+				} else {
+					for _, t := range cp.Par.Tasks {
+						ids = append(ids, t.ID)
+					}
+				}
+				if len(ids) > 0 && !ch.Barrier && ch.HoldTask == 0 {
+					ch.TaskOut[ids[rng.Intn(len(ids))]] = progen.Goexit
+				}
+			}
 			x.Nest = map[int]*ExecD{id: &ch}
 		}
 		return x
